@@ -338,15 +338,13 @@ impl Engine for VcCli {
         let tdepth = if quick { 2 } else { 3 };
         // single document, every behaviour sequence, every prepend/append variant
         for w in words_upto(md_b.len(), tdepth) {
-            if w.is_empty() {
-                continue;
-            }
             let tests: Vec<B> = w.iter().map(|i| md_b[*i]).collect();
             if tests.iter().filter(|b| matches!(b, B::Timeout)).count() > 1 {
                 continue;
             }
             let has81 = tests.iter().position(|b| matches!(b, B::Exit { code: 81, .. }));
-            let mut variants: Vec<u8> = if w.len() == tdepth && !quick { vec![0] } else { vec![0, 1, 2, 3, 4, 5, 6, 7, 8] };
+            // (a main document without test cases of its own: only together with prepended / appended ones, which run all the same)
+            let mut variants: Vec<u8> = if w.is_empty() { vec![1, 2, 3, 4, 5, 6, 7, 8] } else if w.len() == tdepth && !quick { vec![0] } else { vec![0, 1, 2, 3, 4, 5, 6, 7, 8] };
             if has81.is_some() {
                 variants.push(9);
             }
